@@ -272,6 +272,18 @@ def run_special(arg):
                     except Exception:
                         continue
                     viols.append((f"C08:foreign-accepted:{cfgname}:{ch}:{'start' if pos == 0 else 'end' if pos == len(base) else 'middle'}", f"[{cfgname}] Species({name!r}) is accepted (element_count={dict(sp.element_count)}) although {ch!r} belongs to no symbol", {"config": cfgname, "name": name}))
+        # a count belongs to the symbol in front of it: a name that *starts* with digits (isotope notation "13CO", a
+        # stoichiometric "2H") has a count that belongs to nothing
+        for base in bases:
+            for d in ("1", "2", "13"):
+                for pre in ("",):  # not after the surface prefix: there a number is the surface group
+                    name = pre + d + base
+                    n += 1
+                    try:
+                        sp = Species(name, **kw)
+                    except Exception:
+                        continue
+                    viols.append((f"C08:leading-count-accepted:{cfgname}:{'surface' if pre else 'gas'}", f"[{cfgname}] Species({name!r}) is accepted (element_count={dict(sp.element_count)}) although the leading {d!r} is the count of no symbol", {"config": cfgname, "name": name}))
         # a charge sign is only legal at the end of the name: sign followed by a count must not be read as a count
         for a in syms[:6]:
             for sign in ("+", "-"):
